@@ -766,3 +766,89 @@ def enumerate_paths(body, start=0, limit=20000, skip_diverging=True, follow_unwi
 
     rec(start, [], {}, {start: 1})
     return paths
+
+
+# ---------------------------------------------------------------------------------------------
+# debug-only regions (debug_assert!*): blocks control-dependent on `cfg!(debug_assertions)`
+# ---------------------------------------------------------------------------------------------
+def debug_regions(body):
+    """list of (switch_bb, set(region blocks)) for every `if cfg!(debug_assertions) { .. }` produced by a
+    debug_assert*! macro. The region is what the taken edge dominates."""
+    r = body._cache.get("dbgregions")
+    if r is not None:
+        return r
+    cfg = cfg_of(body)
+    out = []
+    for bi, blk in enumerate(body.blocks):
+        t = blk["term"]
+        if t["k"] != "switch":
+            continue
+        macros = t["span"].get("macros") or []
+        if not any(m.startswith("debug_assert") for m in macros):
+            continue
+        d = t["discr"]
+        # the discriminant is a literal bool (directly or through a local assigned in this block)
+        lit = None
+        if d["k"] == "const" and "v" in d:
+            lit = d["v"]
+        elif d["k"] in ("copy", "move") and not d["pl"]["p"]:
+            for s in blk["stmts"]:
+                if s["k"] == "assign" and s["pl"]["l"] == d["pl"]["l"] and not s["pl"]["p"] and s["rv"]["k"] == "use" \
+                        and s["rv"]["op"]["k"] in ("const", "rtc"):
+                    lit = s["rv"]["op"].get("v", 1)
+        if lit is None:
+            continue
+        # region = blocks dominated by the successor that is entered when debug assertions are ON
+        on_target = t["otherwise"]
+        for val, dst in t["targets"]:
+            if val == 1:
+                on_target = dst
+        if t["targets"] and t["targets"][0][0] == 0 and len(t["targets"]) == 1:
+            on_target = t["otherwise"]
+        region = {b for b in range(cfg.n) if cfg.dominates(on_target, b) and on_target != bi}
+        # the join block is reachable from the OFF edge too, so it is not dominated: fine
+        out.append((bi, region))
+    body._cache["dbgregions"] = out
+    return out
+
+
+def in_debug_region(body, bb):
+    return any(bb in reg for _, reg in debug_regions(body))
+
+
+def stated_preconditions(body, facts):
+    """conditions asserted by debug_assert*! in `body`, as relations over its parameters (getter calls
+    inlined): the precondition the function states for itself in debug builds"""
+    key = "preconds"
+    if key in body._cache:
+        return body._cache[key]
+    cfg = cfg_of(body)
+    out = []
+    ecs = edge_conditions(body, facts, inline=True)
+    for (sw, region) in debug_regions(body):
+        for (s, d, c, v) in ecs:
+            if s not in region:
+                continue
+            t = body.blocks[s]["term"]
+            if t["k"] != "switch":
+                continue
+            # the other edge must diverge (panic)
+            others = [x for x in cfg.succ[s] if x != d]
+            if not others or not all(cfg.diverges(o) for o in others) or cfg.diverges(d):
+                continue
+            # a disjunction (`a == 1 || a == 2`) shows up as a chain of switches: only an assertion
+            # whose test is reached unconditionally inside the region is a precondition by itself
+            nested = False
+            for s2 in region:
+                if s2 != s and body.blocks[s2]["term"]["k"] == "switch" and cfg.dominates(s2, s):
+                    nested = True
+            if nested:
+                continue
+            rel = normalize_cmp(c, v)
+            if rel[0] in ("le", "lt", "eq", "ne", "truth"):
+                ex = [rel[1]] + ([rel[2]] if rel[0] != "truth" else [])
+                if any(contains(x, ("unknown", "phi", "icall", "call", "ucall")) for x in ex):
+                    continue
+                out.append(rel)
+    body._cache[key] = out
+    return out
